@@ -1,3 +1,4 @@
+import GitSizer.Proofs.GenStrs
 import GitSizer.Proofs.RefGroups
 /-! # C07 — Reference tallies are exact for every refgroup hierarchy
     Theorems about the model of internal/refopts (`collectSymbols`, `Categorize`); the forest is an
@@ -45,5 +46,18 @@ theorem traversed_has_top_symbol (env : Env) (st : Store) (opts : List (Opt Pat)
   split
   · next hc => simp [hc] at h
   · simp [GTree.sym]
+
+/-- **the symbol hierarchy is read from the keys as the model says, REGENERATED** (internal/refopts/ref_group_builder.go,
+    translated on this run): `splitKey` cuts a gitconfig key at its LAST '.', `parentName` drops the last component —
+    for every byte string, without a panic; these are the functions by which a key such as
+    `refgroup.remotes.origin/releases.include` becomes (group `remotes.origin/releases`, field `include`) and the group's
+    parent becomes `remotes` (seeded change C07k used path.Ext, which stops at a '/') -/
+theorem symbol_hierarchy_source (key sym : Bytes) :
+    Gen.Strs.splitKey key = .ok (Config.splitKey key) ∧ Gen.Strs.parentName sym = .ok (RefGroups.parentName sym) :=
+  ⟨splitKey_regenerated key, parentName_regenerated sym⟩
+
+example : Config.splitKey (Bytes.ofString "remotes.origin/releases.include") =
+    (Bytes.ofString "remotes.origin/releases", Bytes.ofString "include") := by decide +kernel
+example : RefGroups.parentName (Bytes.ofString "remotes.origin/releases") = Bytes.ofString "remotes" := by decide +kernel
 
 end GitSizer.C07
